@@ -178,6 +178,19 @@ class Program:
                     s.impl_methods.setdefault((tyk, tr, m.group(4)), []).append((b, trargs, tytext))
                     b.impl_span = (tyk, tr)
         s.static_cache = {}
+        s.aliases = {}
+        for rel, src in s.src.files.items():
+            for m in re.finditer(r'(?m)^\s*(?:pub(?:\([^)]*\))?\s+)?type\s+(\w+)\s*=\s*([^;]+);', src):
+                if '<' not in m.group(1): s.aliases.setdefault(m.group(1), m.group(2).strip())
+
+    def norm(s, t):
+        """normalised type text for matching impl headers against call sites (aliases expanded)"""
+        t = norm_args(t)
+        for _ in range(3):
+            t2 = re.sub(r'\b(\w+)\b', lambda m: norm_args(s.aliases[m.group(1)]) if m.group(1) in s.aliases and m.group(1) not in ('Result',) else m.group(1), t)
+            if t2 == t: break
+            t = t2
+        return t
 
     # ---------- type names
     def canon_type(s, printed, from_file=None):
@@ -235,11 +248,11 @@ class Program:
         lst = s.impl_methods.get((type_canon, trait, method))
         if not lst: return None
         if len(lst) == 1 or trait_args is None: return lst[0][0]
-        want = norm_args(trait_args)
+        want = s.norm(trait_args)
         for b, ta, _ in lst:
-            if ta is not None and norm_args(ta) == want: return b
+            if ta is not None and s.norm(ta) == want: return b
         for b, ta, _ in lst:
-            if ta is not None and (norm_args(ta).endswith(want) or want.endswith(norm_args(ta))): return b
+            if ta is not None and (s.norm(ta).endswith(want) or want.endswith(s.norm(ta))): return b
         return None
 
     def find_trait_default(s, trait, method):
